@@ -221,8 +221,11 @@ int main(int argc, char **argv) {
         struct C { int n, k, l, Bgbit, t, bb; bool eval; } cfgs[] = {
                 {64, 1, 3, 7, 8, 2, true}, {100, 1, 2, 10, 8, 2, true}, {32, 2, 2, 8, 8, 2, true}, {40, 1, 4, 6, 5, 3, true},
                 {33, 1, 1, 4, 1, 1, false}, {70, 2, 1, 16, 2, 1, false}, {1, 1, 2, 8, 3, 2, false}, {129, 1, 8, 4, 4, 4, false}};
-        for (int i = 0; i < count && i < 8; i++) {
-            const C &c = cfgs[i];
+        // key-switching tables far larger than the default one (24576 encrypted rows): 76800, 67584 and 71680 rows
+        static const C large[] = {{12, 1, 2, 8, 5, 4, false}, {8, 2, 2, 8, 11, 2, false}, {10, 1, 2, 8, 10, 3, false}};
+        const bool lg = args.i("large", 0);
+        for (int i = 0; i < count && i < (lg ? 3 : 8); i++) {
+            const C &c = lg ? large[i] : cfgs[i];
             PSet ps(c.n, 1024, c.k, c.l, c.Bgbit, c.t, c.bb, ldexp(1., -20), ldexp(1., -30));
             char cfg[96]; snprintf(cfg, sizeof cfg, "%s:seed%llu", ps.name().c_str(), (unsigned long long) seed);
             check_keyset(ps.gb, cfg, 8, c.eval);
